@@ -138,7 +138,14 @@ func (x *Exec) callsiteAsserts(fr *Frame, st *State, c *ssa.CallCommon, site *ss
 				Desc: "the call of " + cs.Callee + " is reachable with: " + cs.Clause.Src, Fn: x.vc.fnName, VC: x.vc, Expect: "sat", Pos: x.posOf(fr.fn, site.Pos()), Clause: cs.Clause.Src})
 			continue
 		}
-		g := env.evalBool(cs.Clause.Expr)
+		g, evalErr := safeEvalBool(env, cs.Clause.Expr)
+		if evalErr != "" {
+			// a clause that cannot be evaluated where it is supposed to hold fails; it is not skipped
+			g = TFalse
+			o := x.vc.oblige("callsite."+tag, Implies(st.Reach, g), x.posOf(fr.fn, site.Pos()), fmt.Sprintf("at the call of %s the clause cannot be evaluated (%s): %s", cs.Callee, evalErr, cs.Clause.Src))
+			o.Clause = cs.Clause.Src
+			continue
+		}
 		o := x.vc.oblige("callsite."+tag, Implies(st.Reach, g), x.posOf(fr.fn, site.Pos()), fmt.Sprintf("at the call of %s: %s", cs.Callee, cs.Clause.Src))
 		o.Clause = cs.Clause.Src
 		// vacuity guard: the call must be reachable under the preconditions
@@ -293,8 +300,28 @@ func (x *Exec) returnAsserts(fr *Frame, st *State, ret *ssa.Return) {
 				Desc: "a successful return is reachable with: " + cs.Clause.Src, Fn: x.vc.fnName, VC: x.vc, Expect: "sat", Pos: x.posOf(fr.fn, ret.Pos()), Clause: cs.Clause.Src})
 			continue
 		}
-		g := env.evalBool(cs.Clause.Expr)
+		g, evalErr := safeEvalBool(env, cs.Clause.Expr)
+		if evalErr != "" {
+			// a clause that cannot be evaluated at an accepting exit is a failed obligation, not a skipped one
+			o := x.vc.oblige("callsite."+tag, Implies(And(st.Reach, success), TFalse), x.posOf(fr.fn, ret.Pos()), fmt.Sprintf("at a successful return the clause cannot be evaluated (%s): %s", evalErr, cs.Clause.Src))
+			o.Clause = cs.Clause.Src
+			continue
+		}
 		o := x.vc.oblige("callsite."+tag, Implies(And(st.Reach, success), g), x.posOf(fr.fn, ret.Pos()), fmt.Sprintf("at a successful return: %s", cs.Clause.Src))
 		o.Clause = cs.Clause.Src
 	}
+}
+
+// safeEvalBool evaluates a clause, turning an engine error (unknown name, unsupported construct) into a message.
+func safeEvalBool(env *CEnv, e *CE) (t *Term, msg string) {
+	defer func() {
+		if r := recover(); r != nil {
+			if ee, ok := r.(engineErr); ok {
+				t, msg = nil, ee.msg
+				return
+			}
+			panic(r)
+		}
+	}()
+	return env.evalBool(e), ""
 }
